@@ -61,7 +61,7 @@ def _reset(w):
 
 # ---- TL vector loop ---------------------------------------------------------------------------------------------------
 
-@obligation('C19.tl_vector', 'C19', cases=[{'elem': e, 'tail': t} for e in ('int', 'long', 'int256', 'tonNode.blockIdExt', 'liteServer.accountId', 'bytes', 'http.header') for t in (0, 3, 8) if not (e == 'http.header' and t == 8)],
+@obligation('C19.tl_vector', 'C19', cases=[{'elem': e, 'tail': t} for e in ('int', 'long', 'int256', 'tonNode.blockIdExt', 'liteServer.accountId', 'bytes', 'http.header') for t in (0, 3, 8) if not (e in ('http.header', 'bytes') and t == 8)],
             fuc=[TLD], budget={'seconds': 60, 'paths': 2000},
             descr='TlSchemas.deserialize of a (vector T) field whose 32-bit length field is SYMBOLIC over its whole range, followed by a tail '
                   'of 0, 3 or 8 symbolic bytes (T: int, long, int256, two fixed-width bare composites, bytes, and a bare composite with no fixed-width field; boxed elements are exercised by the bounded adversarial obligation): the call raises or performs at most '
